@@ -26,7 +26,7 @@ impl NotInterested {
     pub fn check(length: usize) -> Result<usize, Error> {
         match length == NotInterested::LEN as usize {
             true => Ok(NotInterested::FULL_SIZE),
-            false => Err(Error::Incomplete("NotInterested")),
+            false => Err(Error::InvalidLength("NotInterested")),
         }
     }
 }
